@@ -329,11 +329,41 @@ package ast
 //@   loop 0:
 //@     invariant trail: base(field.PassesTrail) == 0 || fresh(field.PassesTrail)
 //
-// Reference resolution is a read-only, deterministic function of the schemas.
+// Reference resolution is a read-only, deterministic function of the schemas, pinned down by its
+// defining equations: a non-reference resolves to itself, a reference to an unknown object resolves
+// to itself, any other reference resolves to what the type of the referred object resolves to.
+// The referred object is looked up in the first schema of the reference's package.
+//@ func (*Schema).LocateObject
+//@   property C16
+//@   pure
+//@   requires schema != nil && schema.Objects != nil
+//@   modifies nothing
+//@   ensures  found: result.1 == schema.Objects.records.has(name)
+//@   ensures  object: result.1 ==> result.0 == schema.Objects.records[name]
+//
+//@ func Schemas.LocateObject
+//@   property C16
+//@   pure
+//@   requires forall s: int :: 0 <= s && s < len(schemas) ==> schemas[s] != nil && schemas[s].Objects != nil
+//@   modifies nothing
+//@   ensures  nopkg: (forall s: int :: 0 <= s && s < len(schemas) ==> schemas[s].Package != pkg) ==> !result.1
+//@   ensures  first: forall s: int :: 0 <= s && s < len(schemas) && schemas[s].Package == pkg && (forall t: int :: 0 <= t && t < s ==> schemas[t].Package != pkg) ==> result.1 == schemas[s].Objects.records.has(name) && (result.1 ==> result.0 == schemas[s].Objects.records[name])
+//@   loop 0:
+//@     invariant nopkg: forall t: int :: 0 <= t && t <= $i ==> schemas[t].Package != pkg
+//
+//@ func Schemas.LocateObjectByRef
+//@   property C16
+//@   inline
+//@   requires forall s: int :: 0 <= s && s < len(schemas) ==> schemas[s] != nil && schemas[s].Objects != nil
+//
 //@ func Schemas.ResolveToType
 //@   property C04 C16
 //@   pure
+//@   requires forall s: int :: 0 <= s && s < len(schemas) ==> schemas[s] != nil && schemas[s].Objects != nil
 //@   modifies nothing
+//@   ensures  nonref: def.Kind != KindRef ==> result == def
+//@   ensures  unknown: def.Kind == KindRef && !call("ast.Schemas.LocateObject", schemas, def.Ref.ReferredPkg, def.Ref.ReferredType).1 ==> result == def
+//@   ensures  follow: def.Kind == KindRef && call("ast.Schemas.LocateObject", schemas, def.Ref.ReferredPkg, def.Ref.ReferredType).1 ==> result == call("ast.Schemas.ResolveToType", schemas, call("ast.Schemas.LocateObject", schemas, def.Ref.ReferredPkg, def.Ref.ReferredType).0.Type)
 //
 // C16 - builders are derived completely and type-correctly from the schemas.
 //
@@ -394,6 +424,11 @@ package ast
 //@     invariant len: len(output) == len(input)
 //@     invariant each: forall c: int :: 0 <= c && c <= $i ==> output[c].Op == input[c].Op && output[c].Parameter == input[c].Args[0] && output[c].Argument.Name == old(assignment.Value.Argument.Name) && output[c].Argument.Type == old(assignment.Value.Argument.Type)
 //
+//@ func (*BuilderGenerator).fieldIsRefToConcrete
+//@   property C04 C16
+//@   inline
+//@   requires forall s: int :: 0 <= s && s < len(schemas) ==> schemas[s] != nil && schemas[s].Objects != nil
+//
 //@ func (*BuilderGenerator).structFieldToOption
 //@   property C04 C16
 //@   modifies nothing
@@ -424,6 +459,7 @@ package ast
 //@   property C04 C16
 //@   requires resolved: call("ast.Schemas.ResolveToType", schemas, object.Type).Kind == KindStruct
 //@   requires schema: schema != nil
+//@   requires schemas: forall s: int :: 0 <= s && s < len(schemas) ==> schemas[s] != nil && schemas[s].Objects != nil
 //@   modifies nothing
 //@   ensures  identity: result.Package == schema.Package && result.For == object && result.Name == object.Name
 //@   ensures  bare: len(result.Properties) == 0 && len(result.VeneerTrail) == 0 && len(result.Factories) == 0 && len(result.Constructor.Args) == 0
@@ -460,3 +496,16 @@ package ast
 //@   inlined-loop 0:
 //@     invariant fresh: base(builders) != 0 && fresh(builders)
 //@     invariant exact: buildersFor(schemas, $outer + 1, $i + 1, builders) witness srcS(j) := ite($i >= 0 && j == len(builders) - 1 && structObject(schemas, objAt(schemas, $outer + 1, $i)), $outer + 1, skolem("srcS", "last", j)) witness srcP(j) := ite($i >= 0 && j == len(builders) - 1 && structObject(schemas, objAt(schemas, $outer + 1, $i)), $i, skolem("srcP", "last", j)) witness bj := ite(s == $outer + 1 && p == $i, len(builders) - 1, skolem("bj", "last", s, p))
+//
+// Trail helpers: expanded at their call sites (one append).
+//@ func (*Object).AddToPassesTrail
+//@   property C04
+//@   inline
+//
+//@ func (*StructField).AddToPassesTrail
+//@   property C04
+//@   inline
+//
+//@ func (*Type).AddToPassesTrail
+//@   property C04
+//@   inline
